@@ -42,6 +42,8 @@ package zenodb
 
 // C15/C03: a stored row may be handed on as raw bytes (skipping the per-field mapping) only if the file's field list
 // equals the requested field list, in order (core.Fields.Equals); otherwise columns must go through rowMapper.
+// C13: an error that ends the memstore part of the scan early (deadline, failing consumer, failing flush write) is
+// returned like one that ends the file part.
 //@ func (*fileStore).iterate
 //@   modifies *
 //@   capture sameLayout Bool = result 0 of call core.Fields).Equals
@@ -49,6 +51,8 @@ package zenodb
 //@   at call dyn:onRow assert raw_only_if_allowed: len(callarg2) == 0 || rawOkay
 //@   at call zenodb.rowMapper assert maps_from_file_header: callarg0 == outFields && callarg1 == fileFields
 //@   at call dyn:onRow assert columns_fresh_per_row: len(callarg1) == 0 || freshInLoop(callarg1)
+//@   capture walkErr Iface = result 0 of call bytetree.Tree).Walk
+//@   ensures memstore_scan_error_returned: captured(walkErr) && walkErr != nil ==> result1 != nil
 //@   capture scanInstant Int = result 0 of call (*zenodb.table).truncateBefore
 //@   at call zenodb.rowMerger assert one_instant_per_scan: captured(scanInstant) && callarg3 == scanInstant && callarg2 == fs.t.Resolution
 
